@@ -31,11 +31,14 @@ KeepsSomething(rules) ==
 \* written_ok: no useless rule in the grammar AS WRITTEN (lark silently prunes unused rules before compiling)
 Supported(c) == ~c.ph /\ c.unambiguous /\ c.written_ok /\ NoUselessRules(c.rules, c.start) /\ FilteredWritable(c.rules) /\ KeepsSomething(c.rules)
 
-\* Known gap of the tree matcher (known finding C19-expand1-inlined): a ?rule with an alternative consisting of one
-\* inlined non-terminal (an EBNF repetition or a _rule) is treated as always collapsed; when it has several children the
-\* node exists and cannot be matched.
+\* Known gap of the tree matcher (known finding C19-expand1-inlined): a ?rule with an alternative whose symbols, once the
+\* filtered terminals are taken out (tree_matcher builds its rules from what is visible in the tree), are one inlined
+\* non-terminal (an EBNF repetition or a _rule) is treated as always collapsed; when it has several children the node
+\* exists and cannot be matched.   ?z: NEG+    ?z: B+ "d"
 Expand1OverInlined(c) ==
-  \E r \in DOMAIN c.rules : c.rules[r].expand1 /\ Len(c.rules[r].rhs) = 1 /\ c.rules[r].rhs[1].inlined
+  \E r \in DOMAIN c.rules :
+     /\ c.rules[r].expand1
+     /\ LET kept == SelectSeq(c.rules[r].rhs, LAMBDA x : ~x.filtered) IN Len(kept) = 1 /\ kept[1].inlined
 
 \* items: Seq([first, last] : is the first / last character an identifier character); where blanks go
 Blanks(items) == {i \in 1..(Len(items) - 1) : items[i].last /\ items[i + 1].first}
